@@ -101,6 +101,18 @@ func (env *Env) footprintOf(c *Contract) (*footprint, error) {
 			}
 		case *ECall:
 			id, _ := x.Fun.(*EIdent)
+			if id != nil && id.Name == "elems" && len(x.Args) == 1 {
+				if tl, ok := x.Args[0].(*ETypeLit); ok {
+					gt, err := e.resolveGoType(tl.T, env.pkgPath, env.imports)
+					if err != nil {
+						return nil, err
+					}
+					for _, lf := range e.TI.shape(gt) {
+						fp.whole["S|"+typeStr(gt)+"|"+lf.Path] = true
+					}
+					continue
+				}
+			}
 			if id != nil && id.Name == "contents" && len(x.Args) == 1 {
 				v, err := env.eval(x.Args[0])
 				if err != nil {
